@@ -471,6 +471,24 @@ theorem step_ok {S : Sems} (hS : S.Consistent) {V : Ver} (hV : V.Repaired) (stri
           · simp only [hst', if_false, hsm]
             exact ⟨hw.1, forall_set (forall_set hw.2 s _ (suSplice_ok a b.tests p1 p2 ha' hb'.1)) t _
               (suSplice_ok b a.tests p2 p1 hb' ha'.1)⟩
+  | crossTc i j e =>
+    simp only [step]
+    cases hi : w.tcs[i]? with
+    | none => exact hw
+    | some ti =>
+      cases hj : w.tcs[j]? with
+      | none => exact hw
+      | some tj => exact ⟨forall_set hw.1 i _ (tcSplice_ok ti e (hw.1 ti (mem_of_getElem? hi))), hw.2⟩
+  | crossSuite s t p1 p2 =>
+    simp only [step]
+    cases hs : w.suites[s]? with
+    | none => exact hw
+    | some a =>
+      cases ht : w.suites[t]? with
+      | none => exact hw
+      | some b =>
+        exact ⟨hw.1, forall_set hw.2 s _
+          (suSplice_ok a b.tests p1 p2 (hw.2 a (mem_of_getElem? hs)) (hw.2 b (mem_of_getElem? ht)).1)⟩
   | addFit r f => exact onCache_ok w r (cacheEdit_addFit f) hw
   | addCov r f => exact onCache_ok w r (cacheEdit_addCov f) hw
   | invalidate r => exact onCache_ok w r cacheEdit_invalidate hw
